@@ -3,12 +3,15 @@ package main
 import (
 	"strings"
 	stdx509 "crypto/x509"
+	"crypto/x509/pkix"
+	"encoding/asn1"
 	"fmt"
 	"math/big"
 	"math/rand"
 	"net"
 	"time"
 
+	"github.com/zmap/zcrypto/x509"
 	"github.com/zmap/zlint/v3"
 	"github.com/zmap/zlint/v3/lint"
 	"github.com/zmap/zlint/v3/util"
@@ -204,6 +207,14 @@ func init() {
 				}
 				sup := netOf(b.v6, b.base, l)
 				got := addNet(sup, "supernet of "+b.String())
+				// the super-net written with the last address of its other half, and with the block's own last address
+				supSize := new(big.Int).Lsh(one, uint(w-l))
+				for _, hb := range []*big.Int{new(big.Int).Add(sup.base, new(big.Int).Sub(supSize, one)), last, new(big.Int).Xor(b.base, new(big.Int).Rsh(supSize, 1))} {
+					if got2 := addNet(anet{b.v6, hb, l}, "supernet of "+b.String()+", host bits set"); got2 != got {
+						out.Violate("C19|noncanonical-spelling:"+sup.String(), fmt.Sprintf("%s intersects reserved space = %v, the same range written %s/%d = %v", sup.String(), got, ipBytes(b.v6, hb), l, got2),
+							map[string]interface{}{"net": sup.String(), "spelled": fmt.Sprintf("%s/%d", ipBytes(b.v6, hb), l)}, got, got2)
+					}
+				}
 				// direct monitor: monotonicity under super-nets
 				if inter && !got {
 					supernetFail++
@@ -245,6 +256,12 @@ func init() {
 			l := rng.Intn(w + 1)
 			n := netOf(v6, x, l)
 			got := addNet(n, "random")
+			// the same range spelled with host bits left in the address (10.1.2.3/8, 11.0.0.0/7): nothing obliges the
+			// caller of the exported function, or the encoder of a name constraint, to clear them
+			if got2 := addNet(anet{v6, new(big.Int).Set(x), l}, "random, host bits set"); got2 != got {
+				out.Violate("C19|noncanonical-spelling:"+n.String(), fmt.Sprintf("%s intersects reserved space = %v, the same range written %s/%d = %v", n.String(), got, ipBytes(v6, x), l, got2),
+					map[string]interface{}{"net": n.String(), "spelled": fmt.Sprintf("%s/%d", ipBytes(v6, x), l)}, got, got2)
+			}
 			if util.IsIANAReserved(ipBytes(v6, x)) && !got {
 				out.Violate("C19|contains-reserved-not-intersecting:"+n.String(), fmt.Sprintf("%s contains the reserved address %s but does not intersect", n.String(), ipBytes(v6, x)),
 					map[string]interface{}{"net": n.String(), "address": ipBytes(v6, x).String()}, true, false)
@@ -414,8 +431,94 @@ func init() {
 						map[string]interface{}{"cn": c.Subject.CommonName, "der": hexs(der)}, want, s2)
 				}
 			}
-			out.Add("lints", Case{Coq: fmt.Sprintf("(%s, %s, %s, (%s, %s, %s))", cqList(ipsCoq), cqList(cnCoq), cqList(netsCoq), cqZ(int64(s1)), cqZ(int64(s2)), cqZ(int64(s3))),
+			out.Add("lints", Case{Coq: fmt.Sprintf("(%s, %s, %s, (%s, %s, %s))", cqTyped(ipsCoq, "addr"), cqTyped(cnCoq, "addr"), cqTyped(netsCoq, "net"), cqZ(int64(s1)), cqZ(int64(s2)), cqZ(int64(s3))),
 				Tag: fmt.Sprintf("%d%d%d", s1, s2, s3), Desc: map[string]interface{}{"ips": fmt.Sprint(c.IPAddresses), "cn": c.Subject.CommonName, "nets": fmt.Sprint(nets), "statuses": []int{s1, s2, s3}, "der": hexs(der)}})
+		}
+		// name constraints whose address carries bits outside the mask (an iPAddress constraint is address||mask; nothing
+		// makes the encoder clear the host bits): the range is the same set of addresses as its canonical spelling, so the
+		// lint reports the same
+		{
+			type hb struct {
+				ip   string
+				plen int
+			}
+			cases := []hb{{"::ffff", 112}, {"::1:0:0", 64}, {"::8000:0:1", 80}, {"11.0.0.0", 7}, {"2001:db9::", 31}, {"0.0.0.5", 24}, {"9.255.255.255", 7}, {"8.8.8.8", 6}, {"8.8.8.8", 8},
+				{"193.0.2.1", 7}, {"100.128.0.1", 9}, {"100.128.0.1", 10}, {"2606:4700::1", 32}, {"2606:4700::1", 3}, {"fd00::1", 8}, {"fbff::1", 7}, {"1::", 15}, {"1.2.3.4", 0}, {"2600::1", 0}}
+			nr := 40
+			if tier() == "thorough" {
+				nr = 600
+			}
+			for i := 0; i < nr; i++ {
+				v6 := rng.Bool()
+				wb := 4
+				if v6 {
+					wb = 16
+				}
+				ip := net.IP(rng.Bytes(wb))
+				if v6 && rng.Bool() {
+					ip[0] = 0x20 | ip[0]&0x1f
+				}
+				cases = append(cases, hb{ip.String(), rng.Intn(wb*8 + 1)})
+			}
+			ncCert := func(ip net.IP, mask net.IPMask) (*x509.Certificate, []byte) {
+				tmpl := leafTemplate()
+				tmpl.IsCA, tmpl.KeyUsage, tmpl.BasicConstraintsValid = true, stdx509.KeyUsageCertSign, true
+				val := encTLV(0x30, encTLV(0xa0, encTLV(0x30, encTLV(0x87, append(append([]byte{}, ip...), mask...)))))
+				tmpl.ExtraExtensions = append(tmpl.ExtraExtensions, pkix.Extension{Id: asn1.ObjectIdentifier{2, 5, 29, 30}, Critical: true, Value: val})
+				der, c, err := issue(tmpl, nil)
+				if err != nil {
+					return nil, nil
+				}
+				return c, der
+			}
+			ncRuns := 0
+			for _, hc := range cases {
+				ip := net.ParseIP(hc.ip)
+				if ip == nil {
+					continue
+				}
+				v6 := ip.To4() == nil
+				w := 128
+				if !v6 {
+					ip, w = ip.To4(), 32
+				}
+				mask := net.CIDRMask(hc.plen, w)
+				status := map[bool]int{}
+				for _, canonical := range []bool{true, false} {
+					addr := ip
+					if canonical {
+						addr = ip.Mask(mask)
+					}
+					c, der := ncCert(addr, mask)
+					if c == nil || len(c.PermittedIPAddresses) != 1 {
+						continue
+					}
+					ncRuns++
+					s3 := 0
+					if r := zlint.LintCertificateEx(c, fr).Results["e_ext_nc_intersects_reserved_ip"]; r != nil {
+						s3 = int(r.Status)
+					}
+					status[canonical] = s3
+					ipn := c.PermittedIPAddresses[0].Data
+					var x *big.Int
+					if v6 {
+						x = new(big.Int).SetBytes(ipn.IP.To16())
+					} else {
+						x = new(big.Int).SetBytes(ipn.IP.To4())
+					}
+					ones, _ := ipn.Mask.Size()
+					an := anet{v6, x, ones}
+					out.Add("lints", Case{Coq: fmt.Sprintf("(%s, %s, %s, (%s, %s, %s))", cqTyped(nil, "addr"), cqTyped(nil, "addr"), cqTyped([]string{an.Coq()}, "net"), cqZ(3), cqZ(3), cqZ(int64(s3))),
+						Tag: fmt.Sprintf("nc-%v-%d", canonical, s3), Desc: map[string]interface{}{"permitted": fmt.Sprintf("%s mask %s", ipn.IP, net.IP(ipn.Mask)), "canonical_spelling": canonical, "status": s3, "der": hexs(der)}})
+				}
+				if a, okA := status[true]; okA {
+					if b, okB := status[false]; okB && a != b {
+						out.Violate("C19|nc-lint-spelling:"+fmt.Sprintf("%s/%d", hc.ip, hc.plen), fmt.Sprintf("e_ext_nc_intersects_reserved_ip reports %d on the permitted range %s/%d written with its first address and %d on the same range written with the address %s (host bits set)", a, ip.Mask(mask), hc.plen, b, hc.ip),
+							map[string]interface{}{"address": hc.ip, "prefix": hc.plen}, a, b)
+					}
+				}
+			}
+			out.Stats["nc_spelling_runs"] = ncRuns
 		}
 		return out.Emit()
 	}
